@@ -1259,3 +1259,9 @@ var FrameRunner = core.Runner{
 		return nil
 	},
 }
+
+// GenFrameLines exposes the raw-frame generator (nd.frame lines), RoutersCanon the router-table dump, to the
+// C08 handler-body harness.
+func GenFrameLines(c *core.Ctx) []string { return genFrames(c) }
+
+func RoutersCanon(h *icmp_spoofer.Handler6) (string, string) { return routersCanon(h) }
